@@ -8,7 +8,7 @@ from concurrent.futures import ThreadPoolExecutor
 from .. import core, tlc
 from ..tlaparse import to_json
 
-INVS = ['CodeWins', 'EnvBacksDocumented', 'AbsentOtherwise', 'ExclusionWins', 'AppIffIncludedOrRoot', 'SameEitherWay']
+INVS = ['CodeWins', 'EnvBacksDocumented', 'AbsentOtherwise', 'ExclusionWins', 'AppIffIncludedOrRoot', 'SameEitherWay', 'FunctionsAreCalled', 'ShortIsSuffix']
 
 
 def probe(case):
@@ -28,9 +28,10 @@ def lookup_case(case):
         pc['code'][key] = None
     elif case['code'] == 'value':
         pc['code'][key] = 'from-code'
-    elif case['code'] == 'callable':
+    elif case['code'] in ('callable', 'method', 'partial'):
         pc['code'][key] = 'from-callable'
         pc['callables'] = [key]
+        pc['callable_kind'] = case['code']
     if case['env'] == 'text':
         pc['env']['DEEP_' + key] = 'from-env'
     res = probe(pc)
@@ -138,6 +139,18 @@ def path_cases(c, cases):
                 pool = {'exclude': exc, 'include': inc, 'root': [root], 'none': [None]}[exp['by']]
                 if match not in pool or (match is not None and not file.startswith(match)):
                     bad = 'matched prefix %r, expected one of %s' % (match, pool)
+            if bad is None:
+                # the short path: the file name with the matched prefix removed
+                from deep.processor.frame_collector import FrameCollector
+
+                class Src:
+                    is_app_frame = staticmethod(cfg.is_app_frame)
+                fc = FrameCollector.__new__(FrameCollector)
+                fc._FrameCollector__source = Src()
+                short, flag = fc.parse_short_name(file)
+                want = file if exp['by'] == 'none' else '/'.join(list(exp['short']) + ['m.py'])
+                if short != want or bool(flag) != bool(exp['app']):
+                    bad = 'short path %r (app=%s), expected %r' % (short, flag, want)
         except BaseException as ex:
             bad = 'is_app_frame raised %r' % (ex,)
         c.traces_validated += 1
